@@ -227,6 +227,23 @@ fn blackbox(kind: &str, k: usize, out: &mut Out) {
         out.viol("bb-no-result", &format!("{kind} {k}: no result from the black-box driver"));
         return;
     }
+    if kind == "early_response" {
+        if seen.first().map(|x| x.0.as_str()) != Some("relay") {
+            out.viol("bb-mismatch", &format!("early_response: first answer observed {:?}", seen.first()));
+        }
+        if seen.len() > 1 && seen[1].0 != "abort" && seen[1].0 != "none" {
+            out.viol("bb-two-answers", &format!("early_response: a second answer ({}) followed the early response of the same request", seen[1].0));
+        }
+        return;
+    }
+    if kind == "continue100" || kind == "expect100" || kind == "hints103" {
+        let want1 = if kind == "hints103" { "default 103" } else { "default 100" };
+        let ok = seen.len() == 2 && seen[0].0 == want1 && seen[1].0 == "relay" && seen[1].1 == 20;
+        if !ok {
+            out.viol("bb-interim", &format!("{kind}: observed {:?} (expected the interim response, then the relayed 200 with 20 bytes)", seen));
+        }
+        return;
+    }
     if kind == "cl_close_twice" {
         let ok = seen.len() == 2 && seen.iter().all(|(c, b)| c == "relay" && *b == 20);
         if !ok {
